@@ -28,6 +28,9 @@ CHECKS["C09"] = ("relational monitor over pairs (generated program, meaning-pres
 CHECKS["C03"] = ("verdict monitor by construction over the real type checker (in-process pool + CLI confirmation): generated well-typed base programs accepted by the compiler, mutated by injecting exactly one violation from a 17-rule catalogue (plain spellings and the same violation nested in 22 expression contexts) at a random site of a random statement context; native build sample observes that no executable is left",
  "Held on N mutants (14 or 400 base programs x 17 rule classes, spellings rotating over about 200 snippets, sites drawn from main/function/method/closure/if/else/while/for/match-arm/block): every base was accepted and every mutant was rejected with exit 1 and at least one error diagnostic, no crash; the sampled native builds left no executable.",
  "catalogue and contexts are the rig's reading of the property's list; snippets are self-contained so the violated rule is known by construction", "DESIGN.md §3 C03")
+CHECKS["C19"] = ("relational monitor with an independent position model over the real compiler (in-process pool + CLI confirmation; token boundaries from the compiler's own lexer through the verif hook): program vs. the same program with trivia inserted in 1..40 token gaps; compares verdict, exit status, the multiset of located diagnostics mapped through the token correspondence, and the output of the produced native executables",
+ "Held on N (program, reformatted program) pairs over accepted generated programs, type-error twins (one C03 rule injected) and parse-error twins (token deleted / duplicated / swapped): same verdict and exit status, every diagnostic reported for the reformatted text at exactly the line:column the rig's own position model assigns to the same token, and for accepted programs identical printed lines and termination.",
+ "tabs only as the last character of a whitespace run (documented Position.Advance quirk); @extern text never right before `fn` (documented pragma); base texts are generator-printed ASCII", "DESIGN.md §3 C19")
 CHECKS["C05"] = ("verdict monitor (reference path analysis -> MUST_REJECT / MUST_ACCEPT / MAY with a trailing-return control group) over the real type checker via the in-process pool with CLI confirmation, plus reference-model monitor: every accepted function/method/closure is executed natively over an argument grid and compared with the reference interpreter, which detects falling off the end",
  "Held on N generated bodies (nested if/else-if/else, int and enum match with/without default, while/for with break/continue, early returns; as functions, methods and function literals): every body with a syntactic path to its end was rejected while the same body with a trailing return was accepted; every all-paths-return body was accepted; every accepted callable returned, for all 25 grid argument tuples, exactly the value of the return statement the reference interpreter executes.",
  "conditions opaque; exhaustive enum matches without default are MAY; statements after a return are not generated", "DESIGN.md §3 C05")
